@@ -344,12 +344,15 @@ pub fn cli_game(r: &mut Rng, min_infosets: usize, max_nodes: usize) -> (MNode, &
     let g = if r.coin(0.06) { lottery(&g, r).unwrap_or(g) } else { g };
     // name patterns: multi-byte names; names that need escaping (quotes, backslashes); numeric-
     // looking infoset names that coincide across the two players (names are per player)
-    match r.below(20) {
-        0..=5 => (unicode_names(&g), shape),
-        6..=7 => (escaped_names(&g), shape),
-        8..=9 => (numeric_names(&g), shape),
-        _ => (g, shape),
-    }
+    let g = match r.below(20) {
+        0..=5 => unicode_names(&g),
+        6..=7 => escaped_names(&g),
+        8..=9 => numeric_names(&g),
+        _ => g,
+    };
+    // the empty string is a name like any other: one infoset per player may be called ""
+    let g = if r.coin(0.1) { empty_name(&g) } else { g };
+    (g, shape)
 }
 
 /// see `cli_game`; all numbers stay exactly representable (weights 1 and 1e17, payoffs
@@ -419,12 +422,55 @@ fn numeric_names(g: &MNode) -> MNode {
             MNode::C { info, outs } => MNode::C { info: info.clone(), outs: outs.iter().map(|(a, w, c)| (a.clone(), *w, go(c, maps))).collect() },
             MNode::P { player, info, acts } => {
                 let k = maps[*player].len() + 1;
-                let name = maps[*player].entry(info.clone()).or_insert_with(|| k.to_string()).clone();
+                // canonical and non-canonical spellings ("01", "+3" are names like any other, not numbers)
+                let spelled = match k % 4 {
+                    2 => format!("0{k}"),
+                    3 => format!("+{k}"),
+                    _ => k.to_string(),
+                };
+                let name = maps[*player].entry(info.clone()).or_insert_with(|| spelled).clone();
                 MNode::P { player: *player, info: name, acts: acts.iter().map(|(a, c)| (a.clone(), go(c, maps))).collect() }
             }
         }
     }
     go(g, &mut Default::default())
+}
+
+/// the first infoset of each player (in tree order) is renamed ""
+fn empty_name(g: &MNode) -> MNode {
+    fn first(n: &MNode, f: &mut [Option<String>; 2]) {
+        match n {
+            MNode::T(_) => {}
+            MNode::C { outs, .. } => outs.iter().for_each(|(_, _, c)| first(c, f)),
+            MNode::P { player, info, acts } => {
+                if f[*player].is_none() {
+                    f[*player] = Some(info.clone());
+                }
+                acts.iter().for_each(|(_, c)| first(c, f));
+            }
+        }
+    }
+    fn go(n: &MNode, f: &[Option<String>; 2]) -> MNode {
+        match n {
+            MNode::T(x) => MNode::T(*x),
+            MNode::C { info, outs } => MNode::C { info: info.clone(), outs: outs.iter().map(|(a, w, c)| (a.clone(), *w, go(c, f))).collect() },
+            MNode::P { player, info, acts } => MNode::P {
+                player: *player,
+                info: if f[*player].as_ref() == Some(info) { String::new() } else { info.clone() },
+                acts: acts.iter().map(|(a, c)| (a.clone(), go(c, f))).collect(),
+            },
+        }
+    }
+    let mut f: [Option<String>; 2] = [None, None];
+    first(g, &mut f);
+    // (only if no infoset of that player is already called "")
+    let infos = g.infosets();
+    for p in 0..2 {
+        if infos[p].contains_key("") {
+            f[p] = None;
+        }
+    }
+    go(g, &f)
 }
 
 fn unicode_names(n: &MNode) -> MNode {
